@@ -86,7 +86,7 @@ CasesExpo == <<Expo(3)>>
 CasesRa == <<Ra(2, 1, 0, "small", "full")>>
 CasesBaseSum == <<BaseSum(2, 3)>>
 CasesPoseidon == <<Poseidon(3, 1, 1, 1, ALPHA, "full")>>
-CasesCoset == <<Coset(2, 2, "small")>>
+CasesCoset == <<Coset(2, 2, "tiny")>>
 CasesReducing == <<Reducing(2, "small")>>
 CasesArith == <<Arith(1, "small", "small")>>
 CasesDegCanary == <<Coset(2, 3, "full")>>
